@@ -25,6 +25,10 @@ and written to lean/YashModel/Generated/TrapTables.lean.
       … GrandState::ignore … } }`  -> `subshellRules`, `subshellElse`, `subshellExit`, `subshellTrailing`.
       The loop over `self.traps` must consist of the option selection and the one `state.enter_subshell(..)` call:
       any further statement (`continue`, an early `return`, a guard) is NOT understood and fails loudly.
+  every non-test `.rs` under yash-{semantics,builtin,cli,env,prompt}/src (wave 3, second pass): the call sites of
+      `run_traps_for_caught_signals(` -> `trapPollSites : List (String × String × String)` = (file, enclosing fn,
+      "after" / "before" / "alone": relative to the `.execute(` call of the same function), and of
+      `run_trap_if_caught(` -> `trapIfCaughtSites : List (String × String)`; a call outside any `fn` fails loudly
   yash-env/src/stack.rs           pub enum Frame -> `frameVariants : List String`
   yash-semantics/src/trap/signal.rs   fn in_trap: `env.stack.iter().rev().take_while(|f| **f != Frame::<Stop>)
       .any(|f| matches!(*f, Frame::Trap(Condition::Signal(_))))` -> `inTrapWalk : Bool × String × String`
@@ -535,6 +539,41 @@ def trap_tables(h):
     if in_trap_walk[1] not in frame_variants or "Trap" not in frame_variants:
         h.fail(f"{SEMSIG}: in_trap: frame {in_trap_walk[1]} / Trap is not a variant of stack::Frame")
 
+    # --- where the runner is called (wave 3, second pass) ----------------------------------------------------
+    import os
+    root = os.environ.get("VERIF_REPO", "/repo")
+    poll_sites, ifcaught_sites = [], []
+    for crate in ("yash-semantics", "yash-builtin", "yash-cli", "yash-env", "yash-prompt"):
+        base = os.path.join(root, crate, "src")
+        for dirpath, dirnames, filenames in sorted(os.walk(base)):
+            dirnames.sort()
+            for fname in sorted(filenames):
+                if not fname.endswith(".rs") or fname in ("tests.rs", "test.rs"):
+                    continue
+                rel = os.path.relpath(os.path.join(dirpath, fname), root)
+                src = strip_comments(non_test(h.read(rel)))
+                for name, out_list in (("run_traps_for_caught_signals", poll_sites), ("run_trap_if_caught", ifcaught_sites)):
+                    for mc in re.finditer(r"\b" + name + r"\s*\(", src):
+                        before = src[:mc.start()]
+                        if re.search(r"\bfn\s+$", before):
+                            continue  # the definition itself
+                        fns = list(re.finditer(r"\bfn\s+(\w+)", before))
+                        if not fns:
+                            h.fail(f"{rel}: a call of {name} outside any function is not understood")
+                        fn = fns[-1]
+                        # the rest of the enclosing function: up to the next `fn` item (good enough to look for `.execute(`)
+                        nxt = re.search(r"\n\s*(?:pub\s+)?(?:async\s+)?fn\s+\w+", src[mc.end():])
+                        rest = src[mc.end():mc.end() + nxt.start()] if nxt else src[mc.end():]
+                        inside_before = src[fn.end():mc.start()]
+                        if name == "run_traps_for_caught_signals":
+                            kind = ("after" if ".execute(" in inside_before else
+                                    "before" if ".execute(" in rest else "alone")
+                            out_list.append((rel, fn.group(1), kind))
+                        else:
+                            out_list.append((rel, fn.group(1)))
+    if not poll_sites:
+        h.fail("no call site of run_traps_for_caught_signals found (renamed?)")
+
     def pairs(l, f):
         items = [f(x) for x in l]
         lines, cur = [], "  ["
@@ -588,6 +627,13 @@ def trap_tables(h):
         + ", ".join(str(num[x]) for x in sub_trailing[0]) + f"], {flag_pos[sub_trailing[1]]})\n\n"
         f"/-- the `bool` parameters of `enter_subshell`, in order -/\n"
         "def subshellFlags : List String := [" + ", ".join(h.lean_str(f) for f in flag_names) + "]\n\n"
+        "/-- every call site of `run_traps_for_caught_signals` outside tests: (file, enclosing fn, position relative to\n"
+        "    the `.execute(` call of that function) -/\n"
+        "def trapPollSites : List (String × String × String) :=\n  ["
+        + ",\n   ".join(f"({h.lean_str(a)}, {h.lean_str(b)}, {h.lean_str(c)})" for a, b, c in poll_sites) + "]\n\n"
+        "/-- every call site of `run_trap_if_caught` outside tests: (file, enclosing fn) -/\n"
+        "def trapIfCaughtSites : List (String × String) :=\n  ["
+        + ",\n   ".join(f"({h.lean_str(a)}, {h.lean_str(b)})" for a, b in ifcaught_sites) + "]\n\n"
         f"/-- variants of `pub enum Frame` ({STACK}), in declaration order -/\n"
         "def frameVariants : List String := [" + ", ".join(h.lean_str(v) for v in frame_variants) + "]\n\n"
         f"/-- `in_trap` ({SEMSIG}): walks from the innermost frame (`.rev()`), stops at this frame, looks for that one -/\n"
